@@ -459,6 +459,24 @@ impl<F: Flavor> Sys<F> {
             out.v("C09", "capacity", format!("buffer holds {} values, capacity is {}", snap.scalars[1], self.cap));
         }
 
+        // C17: "streams yield exactly the values successive receives would". While a stream is the
+        // only receiving object that is alive and unfinished, an accepted value that has been
+        // neither received, handed back nor dropped can only be in the buffer or in the node of its
+        // parked sender; if it is in neither, the stream has fetched it ahead of the poll that will
+        // yield it, and a receive issued now through a handle gets a later value instead. (With a
+        // pending receive future around, an implementation that hands values over at notification
+        // time could legitimately keep one there: not flagged.)
+        let other_receivers = (0..self.kr).any(|j| matches!(&self.rs[j], Some(r) if r.meta.pending()));
+        if self.st.is_some() && !other_receivers && !out.corrupt {
+            for e in self.inflight.iter().filter(|e| e.accepted) {
+                let t = e.tag as u64;
+                let inside = snap.buffer.iter().any(|&b| b == t) || snap.queues[1].iter().any(|q| q.extra == t);
+                if !inside {
+                    out.p("C17", "stream-took-ahead", format!("value {} has left the channel (buffer {:?}) although no receive / poll_next has yielded it and the stream is the only unfinished receiver: the stream does not yield exactly what successive receives would", e.tag, snap.buffer));
+                }
+            }
+        }
+
         // C11: closed-ness ground truth
         let impl_closed = snap.scalars[0] != 0;
         if impl_closed != self.closed {
